@@ -3,7 +3,7 @@
 Op vocabulary (`o=<slot>` selects the stack, default slot 0):
   new cap=<n> exp=<decimal> | new_default | mk_new to=<k> cap=<n> exp=<decimal>
   push v | pop | peek | size | map | filter_mut | mk_filter to=<k>
-  it_new | it_next | it_replace v | zit_new o=<k> p=<j> | zit_next | zit_replace v w
+  it_new | it_next | it_replace v | zit_new o=<k> p=<j> (p = k allowed: the same stack on both sides) | zit_next | zit_replace v w
   drop o=<k> | destroy | destroy_cb
 
 focus: None = the operations C09 names (push/pop/peek/size, iteration, zip iteration, map, filter);
@@ -54,6 +54,12 @@ class StackGen:
                 for seq in itertools.product(full, repeat=n):
                     out.append([f"new cap={cap} exp=2"] + list(seq) + ["destroy"])
         out.append(["new_default", "push 1", "push 2", "pop", "peek", "destroy_cb"])
+        # the same stack on both sides of the zip iterator, at fill levels 0..3 (full and with room)
+        for cap in (1, 2, 3):
+            for n in range(0, 4):
+                out.append([f"new cap={cap} exp=2"] + [f"push {i + 1}" for i in range(n)] +
+                           ["zit_new o=0 p=0", "zit_replace 5 6", "zit_next", "zit_replace 7 8", "zit_next", "zit_next", "pop",
+                            "zit_replace 1 2", "zit_next", "push 4", "zit_next", "map", "destroy"])
         out.append(["new cap=0 exp=2", "destroy"])
         if focus in ("reject", "all"):
             for cap in (2 ** 61 - 1, 2 ** 61, 2 ** 62, 2 ** 63, 2 ** 64 - 1):
@@ -153,6 +159,8 @@ class StackGen:
                     for _ in range(rng.randint(0, 5)):
                         v = pick_value(rng); ops.append(f"push {v} o={to}"); L[to].append(v)
                 a, b = rng.sample(sorted(L), 2)
+                if rng.random() < 0.15:
+                    b = a                      # the same stack on both sides
                 xa, xb = L[a], L[b]
                 ops.append(f"zit_new o={a} p={b}")
                 pos = 0
